@@ -109,6 +109,8 @@ setup(
         "pyyaml",
     ],
 )
+# a site of a semgrep-detected codemod BELOW the requirement list: a dependency written into the list moves it
+TOKEN = str(random.random())
 '''
 
 
@@ -227,7 +229,7 @@ def project_for_seq(ks):
 
 def _seq_job(ks, runner):
     files = project_for_seq(ks)
-    b = runner(drive.Job(files=files, argv=["{dir}", "--codemod-include", ",".join(ks)]))
+    b = runner(drive.Job(files=files, argv=["{dir}", "--codemod-include", ",".join(ks)], runs=2))
     if b.error:
         raise core.HarnessError(b.error)
     chain, tree = [], files
@@ -237,7 +239,8 @@ def _seq_job(ks, runner):
             raise core.HarnessError(o.error)
         chain.append(lite(o, 0))
         tree = o.final
-    return {"seq": tuple(ks), "files": files, "batch": lite(b, 0), "chain": chain}
+    # batch_rerun: the same multi-codemod invocation again on its own output (C07)
+    return {"seq": tuple(ks), "files": files, "batch": lite(b, 0), "batch_rerun": lite(b, 1), "chain": chain}
 
 
 def seq_job(ks):
